@@ -361,17 +361,18 @@ package vm
 //@ requires stmt != nil
 //@ loop 0 invariant actInvE(runInfo) && env == old(runInfo.env) && runInfo.err == nil
 //@ loop 1 invariant actInvE(runInfo) && env == old(runInfo.env) && runInfo.err == nil
-// C08 (and the switch clause of C06): the subject is evaluated first; case expressions are compared with it, by
+// C08 (and the switch clause of C06; C20: subject and case values are compared by vm.equal whatever their provenance - no
+// shortcut on the static type of an interface-typed operand): the subject is evaluated first; case expressions are compared with it, by
 // vm.equal, until the first one that is equal; exactly that case's body runs (else the default), and the body's outcome
 // - value, error, break/continue/return signal - is the outcome of the switch statement.
 //@ ensures [C08] passes: ncalls() >= 1 && calleeIs(ncalls()-1, "runSingleStmt") ==> runInfo.err == res(ncalls()-1) && runInfo.rv == res2(ncalls()-1)
 //@ ensures [C08] subject: ncalls() >= 1 && calleeIs(0, "invokeExpr") && arg(0) == stmt.Expr
 //@ ensures [C08] allcases: forall k int :: 0 <= k && k < ncalls() - 1 ==> calleeIs(k, "invokeExpr") && res(k) == nil
-//@ ensures [C08 C06] nomatch: forall k int :: 1 <= k && k < ncalls() - 2 ==> !equalR(res2(k), res2(0))
-//@ ensures [C08 C06] matched: ncalls() >= 3 && calleeIs(ncalls()-1, "runSingleStmt") && equalR(res2(ncalls()-2), res2(0)) ==> (exists c int :: 0 <= c && c < len(stmt.Cases) && arg(ncalls()-1) == as(stmt.Cases[c], "*ast.SwitchCaseStmt").Stmt && (exists j int :: 0 <= j && j < len(as(stmt.Cases[c], "*ast.SwitchCaseStmt").Exprs) && arg(ncalls()-2) == as(stmt.Cases[c], "*ast.SwitchCaseStmt").Exprs[j]))
-//@ ensures [C08 C06] default: calleeIs(ncalls()-1, "runSingleStmt") && (ncalls() == 2 || !equalR(res2(ncalls()-2), res2(0))) ==> arg(ncalls()-1) == stmt.Default
-//@ ensures [C08 C06] taken: ncalls() >= 2 && calleeIs(ncalls()-1, "invokeExpr") ==> res(ncalls()-1) != nil || (!equalR(res2(ncalls()-1), res2(0)) && stmt.Default == nil)
-//@ ensures [C08 C06] takenprev: ncalls() >= 3 && calleeIs(ncalls()-1, "invokeExpr") ==> !equalR(res2(ncalls()-2), res2(0))
+//@ ensures [C08 C06 C20] nomatch: forall k int :: 1 <= k && k < ncalls() - 2 ==> !equalR(res2(k), res2(0))
+//@ ensures [C08 C06 C20] matched: ncalls() >= 3 && calleeIs(ncalls()-1, "runSingleStmt") && equalR(res2(ncalls()-2), res2(0)) ==> (exists c int :: 0 <= c && c < len(stmt.Cases) && arg(ncalls()-1) == as(stmt.Cases[c], "*ast.SwitchCaseStmt").Stmt && (exists j int :: 0 <= j && j < len(as(stmt.Cases[c], "*ast.SwitchCaseStmt").Exprs) && arg(ncalls()-2) == as(stmt.Cases[c], "*ast.SwitchCaseStmt").Exprs[j]))
+//@ ensures [C08 C06 C20] default: calleeIs(ncalls()-1, "runSingleStmt") && (ncalls() == 2 || !equalR(res2(ncalls()-2), res2(0))) ==> arg(ncalls()-1) == stmt.Default
+//@ ensures [C08 C06 C20] taken: ncalls() >= 2 && calleeIs(ncalls()-1, "invokeExpr") ==> res(ncalls()-1) != nil || (!equalR(res2(ncalls()-1), res2(0)) && stmt.Default == nil)
+//@ ensures [C08 C06 C20] takenprev: ncalls() >= 3 && calleeIs(ncalls()-1, "invokeExpr") ==> !equalR(res2(ncalls()-2), res2(0))
 //@ loops invariant ncalls() >= 1 && arg(0) == stmt.Expr && res2(0) == value && (forall k int :: 0 <= k && k < ncalls() ==> calleeIs(k, "invokeExpr") && res(k) == nil) && (forall k int :: 1 <= k && k < ncalls() ==> !equalR(res2(k), value))
 // C04: the subject, the case expressions and the chosen body run in one fresh child of the statement's scope
 //@ callsite (*runInfoStruct).runSingleStmt * [C04] childscope: fresh(runInfo.env) && runInfo.env.parent == old(runInfo.env)
